@@ -310,6 +310,85 @@ def type_of(v):
     return 'unknown'
 
 
+class ModuleFrame:
+    """Pseudo function frame used while evaluating a module-level / class-level constant."""
+
+    def __init__(self, module, cls=None):
+        self.module, self.cls = module, cls
+        self.name = '<module>'
+        self.qualname = module.name + '.<module>'
+        self.node = module.tree
+        self.params = []
+
+    def loc(self, node=None):
+        return '%s:%d' % (self.module.relpath, getattr(node, 'lineno', 0))
+
+    def defaults(self):
+        return {}
+
+    def body(self):
+        return []
+
+
+def is_constant_value(v, depth=0):
+    if depth > 6:
+        return False
+    if isinstance(v, (Sym, Const)):
+        return not isinstance(v, Sym) or v.is_const()
+    if isinstance(v, Str):
+        return v.is_lit()
+    if isinstance(v, Tup):
+        return all(is_constant_value(x, depth + 1) for x in v.items)
+    if isinstance(v, DictV):
+        return all(is_constant_value(k, depth + 1) and is_constant_value(x, depth + 1)
+                   for k, x in v.items)
+    if isinstance(v, Opaque):
+        if v.label in ('encode', 'm:maketrans', 'call:str.maketrans', 're.compile', 'frozenset',
+                       'call:re.compile'):
+            return all(is_constant_value(a, depth + 1) for a in v.args
+                       if not isinstance(a, tuple))
+        return False
+    if isinstance(v, (FuncRef, ClassRef, ExtRef)):
+        return True
+    return False
+
+
+def class_attr_is_constant_table(cls, attr, expr):
+    """A class-level container literal that is non-empty and that no method of the class family
+    stores to / mutates in place through self.<attr> or <Class>.<attr>."""
+    if isinstance(expr, (ast.Tuple,)):
+        pass
+    elif isinstance(expr, (ast.Dict, ast.List, ast.Set)):
+        n = len(expr.keys) if isinstance(expr, ast.Dict) else len(expr.elts)
+        if n == 0:
+            return False       # `grid = []` style shared default: must stay visible as such
+    elif isinstance(expr, (ast.BinOp, ast.Call, ast.Attribute, ast.Name, ast.JoinedStr, ast.UnaryOp)):
+        pass
+    else:
+        return False
+    from .purity import IN_PLACE_METHODS
+    for c in cls.mro():
+        for m in c.methods.values():
+            for node in ast.walk(m.node):
+                tgt = None
+                if isinstance(node, (ast.Assign, ast.AugAssign, ast.AnnAssign, ast.Delete)):
+                    tgts = node.targets if isinstance(node, (ast.Assign, ast.Delete)) else [node.target]
+                    for t in tgts:
+                        base = t
+                        while isinstance(base, ast.Subscript):
+                            base = base.value
+                        if isinstance(base, ast.Attribute) and base.attr == attr:
+                            return False
+                if isinstance(node, ast.Call) and isinstance(node.func, ast.Attribute) and \
+                        node.func.attr in IN_PLACE_METHODS:
+                    base = node.func.value
+                    while isinstance(base, ast.Subscript):
+                        base = base.value
+                    if isinstance(base, ast.Attribute) and base.attr == attr:
+                        return False
+    return True
+
+
 # ====================================================================== interpreter
 class Hooks:
     """Per-check customisation points.  Every method may return None for 'default behaviour'."""
@@ -382,6 +461,8 @@ class Interp:
             raise Unsupported('too many arguments calling %s' % fn.qualname)
         for p, a in zip(pos, args):
             env[p] = a
+        if fn.node.args.vararg:
+            env[fn.node.args.vararg.arg] = Tup(tuple(args[len(pos):]), 'tuple')
         for k, v in kwargs.items():
             if k in env:
                 raise Unsupported('duplicate argument %s calling %s' % (k, fn.qualname))
@@ -731,6 +812,8 @@ class Interp:
     def literal_items(self, it):
         if isinstance(it, Tup):
             return list(it.items)
+        if isinstance(it, DictV):
+            return [k for k, _ in it.items]
         if isinstance(it, Opaque) and it.label == 'range' and all(
                 isinstance(a, Sym) and a.is_const() for a in it.args):
             vals = [int(a.const_value()) for a in it.args]
@@ -982,6 +1065,8 @@ class Interp:
     _LOCALS = {}
 
     def local_names(self, fn):
+        if isinstance(fn, ModuleFrame):
+            return set()
         key = id(fn.node)
         got = self._LOCALS.get(key)
         if got is None:
@@ -1012,6 +1097,49 @@ class Interp:
             self._LOCALS[key] = got
         return got
 
+    _CONST_CACHE = {}
+
+    def module_constant(self, mod, name):
+        """Value of a module-level name bound to a constant expression (literal containers,
+        literal arithmetic, method calls on literals, references to other constants) that no
+        function of the module can mutate or rebind; None if it is not such a constant."""
+        from . import purity
+        key = (mod.path, name)
+        if key in self._CONST_CACHE:
+            return self._CONST_CACHE[key]
+        self._CONST_CACHE[key] = None          # recursion guard
+        g = mod.globals.get(name)
+        val = None
+        if g is not None and name not in purity.mutated_names(mod):
+            val = self.eval_constant_expr(g, mod, None)
+        self._CONST_CACHE[key] = val
+        return val
+
+    def eval_constant_expr(self, node, mod, cls):
+        frame = ModuleFrame(mod, cls)
+        depth = getattr(self, '_const_depth', 0)
+        if depth > 6:
+            return None
+        self._const_depth = depth + 1
+        self.stack.append(frame)
+        saved_paths = self.paths
+        try:
+            vals = list(self.ev(node, State()))
+        except (AnalysisError, RecursionError, KeyError, TypeError, ValueError, AttributeError):
+            vals = []
+        finally:
+            self.stack.pop()
+            self._const_depth = depth
+            self.paths = saved_paths
+        if len(vals) != 1:
+            return None
+        v, st = vals[0]
+        if st.raised or st.effects or st.path or v is None:
+            return None
+        if not is_constant_value(v):
+            return None
+        return v
+
     def global_name(self, name):
         mod = self.cur.module
         hv = self.hooks.global_value(mod, name)
@@ -1027,9 +1155,9 @@ class Interp:
             g = mod.globals[name]
             if isinstance(g, ast.Constant):
                 return self.constant(g.value)
-            if isinstance(g, ast.Call) and isinstance(g.func, ast.Name) and \
-                    g.func.id in mod.functions and not g.args:
-                return Opaque('global:%s.%s' % (mod.name, name))
+            cv = self.module_constant(mod, name)
+            if cv is not None:
+                return cv
             return Opaque('global:%s.%s' % (mod.name, name))
         tgt = mod.imports.get(name)
         if tgt:
@@ -1067,10 +1195,15 @@ class Interp:
                 if m is not None:
                     yield Bound(o, attr), s
                     return
-                expr, _ = cls.lookup_attr(attr)
+                expr, owner = cls.lookup_attr(attr)
                 if expr is not None and isinstance(expr, ast.Constant):
                     yield self.constant(expr.value), s
                     return
+                if expr is not None and class_attr_is_constant_table(cls, attr, expr):
+                    cv = self.eval_constant_expr(expr, owner.module, owner)
+                    if cv is not None:
+                        yield cv, s
+                        return
             yield Opaque('%s.%s' % (o.label, attr)), s
             return
         if isinstance(o, PkgMod):
@@ -1085,6 +1218,11 @@ class Interp:
                 if attr in mm.globals and isinstance(mm.globals[attr], ast.Constant):
                     yield self.constant(mm.globals[attr].value), s
                     return
+                if attr in mm.globals:
+                    cv = self.module_constant(mm, attr)
+                    if cv is not None:
+                        yield cv, s
+                        return
             yield Opaque('pkg:%s.%s' % (o.name, attr)), s
             return
         if isinstance(o, ExtRef):
@@ -1102,6 +1240,13 @@ class Interp:
             if m is not None:
                 yield FuncRef(m, m.qualname), s
                 return
+            expr, owner = o.cls.lookup_attr(attr)
+            if expr is not None and (isinstance(expr, ast.Constant) or
+                                     class_attr_is_constant_table(o.cls, attr, expr)):
+                cv = self.eval_constant_expr(expr, owner.module, owner)
+                if cv is not None:
+                    yield cv, s
+                    return
         if isinstance(o, Const) and o.v is None:
             yield None, s.raising('AttributeError').note(('none-deref', attr,
                                                           getattr(node, 'lineno', 0)))
@@ -1217,10 +1362,31 @@ class Interp:
                                 yield [v] + rest, s5
 
     def ev_GeneratorExp(self, node, st):
+        # literal iteration space: exact unrolling (the result is used as an ordered sequence)
+        if len(node.generators) == 1 and not node.generators[0].is_async:
+            as_list = ast.copy_location(ast.ListComp(elt=node.elt, generators=node.generators), node)
+            for v, s in self.ev_ListComp(as_list, st):
+                if isinstance(v, Tup):
+                    yield Tup(v.items, 'tuple' if isinstance(node, ast.GeneratorExp) else 'set'), s
+                else:
+                    yield v, s
+            return
         yield Opaque('comp@%d' % node.lineno, (), 'list'), st
 
     ev_SetComp = ev_GeneratorExp
-    ev_DictComp = ev_GeneratorExp
+
+    def ev_DictComp(self, node, st):
+        if len(node.generators) == 1 and not node.generators[0].is_async:
+            pair = ast.copy_location(ast.Tuple(elts=[node.key, node.value], ctx=ast.Load()), node)
+            as_list = ast.copy_location(ast.ListComp(elt=pair, generators=node.generators), node)
+            for v, s in self.ev_ListComp(as_list, st):
+                if isinstance(v, Tup) and all(isinstance(x, Tup) and len(x.items) == 2
+                                              for x in v.items):
+                    yield DictV(tuple((x.items[0], x.items[1]) for x in v.items)), s
+                else:
+                    yield Opaque('comp@%d' % node.lineno, (), 'dict'), s
+            return
+        yield Opaque('comp@%d' % node.lineno, (), 'dict'), st
 
     def ev_Lambda(self, node, st):
         yield Opaque('lambda@%d' % node.lineno), st
@@ -1482,9 +1648,11 @@ class Interp:
     LIST_MUTATORS = ('append', 'pop', 'insert', 'extend', 'clear')
 
     def ev_Call(self, node, st):
-        if any(isinstance(a, ast.Starred) for a in node.args) or \
-                any(k.arg is None for k in node.keywords):
-            raise Unsupported('star-args call at %s' % self.cur.loc(node))
+        if any(k.arg is None for k in node.keywords):
+            raise Unsupported('**kwargs call at %s' % self.cur.loc(node))
+        if any(isinstance(a, ast.Starred) for a in node.args):
+            yield from self._ev_call_starred(node, st)
+            return
         f = node.func
         if isinstance(f, ast.Attribute) and isinstance(f.value, ast.Name) \
                 and f.attr in self.LIST_MUTATORS and isinstance(st.env.get(f.value.id), Tup) \
@@ -1499,6 +1667,33 @@ class Interp:
                 if s2.raised:
                     yield None, s2
                     continue
+                for kvals, s3 in self.ev_seq([k.value for k in node.keywords], s2):
+                    if s3.raised:
+                        yield None, s3
+                        continue
+                    kwargs = {k.arg: v for k, v in zip(node.keywords, kvals)}
+                    yield from self.do_call(f, args, kwargs, s3, node)
+
+    def _ev_call_starred(self, node, st):
+        """f(a, *seq, b): the starred value must be a sequence with known elements."""
+        for f, s in self.ev(node.func, st):
+            if s.raised:
+                yield None, s
+                continue
+            plain = [a.value if isinstance(a, ast.Starred) else a for a in node.args]
+            for vals, s2 in self.ev_seq(plain, s):
+                if s2.raised:
+                    yield None, s2
+                    continue
+                args = []
+                for a, v in zip(node.args, vals):
+                    if isinstance(a, ast.Starred):
+                        if not isinstance(v, Tup):
+                            raise Unsupported('star-args of an unknown sequence at %s'
+                                              % self.cur.loc(node))
+                        args.extend(v.items)
+                    else:
+                        args.append(v)
                 for kvals, s3 in self.ev_seq([k.value for k in node.keywords], s2):
                     if s3.raised:
                         yield None, s3
@@ -1661,6 +1856,50 @@ class Interp:
         if name == 'divmod' and len(args) == 2 and num(0) and num(1):
             q = mk_func('FLOOR', args[0] / args[1])
             return [(Tup((q, args[0] - args[1] * q)), st)]
+        if name == 'enumerate' and args and isinstance(args[0], Tup):
+            start = 0
+            extra = args[1] if len(args) > 1 else kwargs.get('start')
+            if isinstance(extra, Sym) and extra.is_const():
+                start = int(extra.const_value())
+            return [(Tup(tuple(Tup((Sym.const(i + start), x)) for i, x in enumerate(args[0].items)),
+                         'list'), st)]
+        if name == 'zip' and args and all(isinstance(a, Tup) for a in args):
+            return [(Tup(tuple(Tup(tuple(xs)) for xs in zip(*[a.items for a in args])), 'list'), st)]
+        if name == 'reversed' and len(args) == 1 and isinstance(args[0], Tup):
+            return [(Tup(tuple(reversed(args[0].items)), 'list'), st)]
+        if name == 'next' and args and isinstance(args[0], Tup):
+            if args[0].items:
+                return [(args[0].items[0], st)]
+            if len(args) > 1:
+                return [(args[1], st)]
+            return [(None, st.raising('StopIteration'))]
+        if name in ('any', 'all') and len(args) == 1 and isinstance(args[0], Tup):
+            conds = [to_cond(x) for x in args[0].items]
+            if not conds:
+                return [(Const(name == 'all'), st)]
+            c = (OrC if name == 'any' else AndC)(tuple(conds)) if len(conds) > 1 else conds[0]
+            t = fold_cond(c)
+            return [(Const(t) if t is not None else c, st)]
+        if name == 'sum' and len(args) == 1 and isinstance(args[0], Tup) and all(
+                isinstance(x, Sym) for x in args[0].items):
+            tot = Sym.const(0)
+            for x in args[0].items:
+                tot = tot + x
+            return [(tot, st)]
+        if name in ('max', 'min') and len(args) == 1 and isinstance(args[0], Tup) and \
+                args[0].items and all(isinstance(x, Sym) for x in args[0].items):
+            return [(mk_func(name.upper(), *args[0].items) if len(args[0].items) > 1
+                     else args[0].items[0], st)]
+        if name in ('dict',) and len(args) == 1 and isinstance(args[0], DictV) and not kwargs:
+            return [(args[0], st)]
+        if name == 'frozenset' and len(args) == 1 and isinstance(args[0], Tup):
+            return [(Tup(args[0].items, 'set'), st)]
+        if name == 'set' and len(args) == 1 and isinstance(args[0], Tup):
+            return [(Tup(args[0].items, 'set'), st)]
+        if name in ('mpmath.ldexp', 'math.ldexp') and len(args) == 2 and num(0) and num(1) \
+                and args[1].is_const() and args[1].const_value().denominator == 1:
+            k = int(args[1].const_value())
+            return [(args[0] * (Sym.const(2) ** k) if k >= 0 else args[0] / (Sym.const(2) ** (-k)), st)]
         if name in ('enumerate', 'reversed', 'zip', 'map', 'sorted', 'isinstance'):
             return [(Opaque(name, tuple(args)), st)]
         if name in ('packaging.version.parse',) and len(args) == 1:
@@ -1686,6 +1925,28 @@ class Interp:
             return [(Opaque('decode', (obj,), 'str'), st)]
         if isinstance(obj, Tup) and name == 'copy':
             return [(obj, st)]
+        if isinstance(obj, DictV):
+            if name == 'get' and 1 <= len(args) <= 2:
+                key = args[0]
+                lit_keys = all(is_constant_value(k) for k, _ in obj.items)
+                for k, v in obj.items:
+                    if k == key:
+                        return [(v, st)]
+                if lit_keys and is_constant_value(key):
+                    return [(args[1] if len(args) > 1 else NONE, st)]
+            if name == 'items' and not args:
+                return [(Tup(tuple(Tup((k, v)) for k, v in obj.items), 'list'), st)]
+            if name == 'keys' and not args:
+                return [(Tup(tuple(k for k, _ in obj.items), 'list'), st)]
+            if name == 'values' and not args:
+                return [(Tup(tuple(v for _, v in obj.items), 'list'), st)]
+            if name == 'copy' and not args:
+                return [(obj, st)]
+        if isinstance(obj, Tup) and name == 'index' and len(args) == 1 and args[0] in obj.items:
+            return [(Sym.const(obj.items.index(args[0])), st)]
+        if isinstance(obj, Tup) and name == 'count' and len(args) == 1 and all(
+                is_constant_value(x) for x in obj.items) and is_constant_value(args[0]):
+            return [(Sym.const(sum(1 for x in obj.items if x == args[0])), st)]
         ty = METHOD_TY.get(name, 'unknown')
         res = Opaque('m:' + name, (obj,) + tuple(args) + tuple(sorted(kwargs.items())), ty)
         if name in PURE_METHODS:
@@ -1862,6 +2123,8 @@ def type_of_hint(v):
 def to_cond(v):
     if isinstance(v, COND_TYPES) or isinstance(v, Const):
         return v if not (isinstance(v, Const) and v.v is None) else FALSE
+    if isinstance(v, Sym):
+        return norm_cmp('!=', v, Sym.const(0))
     return Truthy(v)
 
 
@@ -1970,6 +2233,13 @@ def fold_cond(c):
             return item.text() in cont.text()
         if isinstance(cont, Tup) and not cont.items:
             return False
+        if isinstance(cont, DictV):
+            cont = Tup(tuple(k for k, _ in cont.items))
+        if isinstance(cont, Tup) and is_constant_value(item) and all(
+                is_constant_value(x) for x in cont.items):
+            return any(x == item for x in cont.items)
+        if isinstance(cont, Tup) and any(x == item for x in cont.items) and not isinstance(item, Opaque):
+            return True
         return None
     if isinstance(c, AndC):
         vals = [fold_cond(x) for x in c.items]
